@@ -198,38 +198,65 @@ def prepare(case):
     utxos = [mk_utxo(u) for u in case['utxos']]
     ctx = Ctx(case['pp'], utxos)
     b = TransactionBuilder(ctx)
-    for k in case.get('explicit', []):
-        b.add_input(utxos[k])
-    for k in case.get('potential', []):
-        b.potential_inputs.append(utxos[k])
-    if case.get('excluded'):
-        b.excluded_inputs = [utxos[k] for k in case['excluded']]
-    for a in case.get('addr_inputs', []):
-        b.add_input_address(addr(a))
-    for o in case.get('outs', []):
-        b.add_output(TransactionOutput(addr(o['a']), Value(o['c'], mk_ma(o['m']))))
-    if case.get('mint') is not None:
-        b.mint = mk_ma(case['mint'])
-    if case.get('scripts'):
-        b.native_scripts = [policy_script(k) for k in case['scripts']]
-    if case.get('wdrl') is not None:
-        w = Withdrawals()
-        for ra, amt in case['wdrl']:
-            w[bytes.fromhex(ra)] = amt
-        b.withdrawals = w
-    if case.get('certs') is not None:
-        b.certificates = [mk_cert(c) for c in case['certs']]
-    b.initial_stake_pool_registration = bool(case.get('pool_initial', False))
-    for k, dep in enumerate(case.get('props', [])):
-        b.add_proposal(dep[0], bytes.fromhex(dep[1]), InfoAction(), anchor(dep[2]))
-    if case.get('donation') is not None:
-        b.add_treasury_donation(case['donation'])
-        if case.get('treasury') is not None:
-            b.current_treasury_value = case['treasury']
-    if case.get('fee_buffer') is not None:
-        b.fee_buffer = case['fee_buffer']
-    if case.get('ttl') is not None:
-        b.ttl = case['ttl']
+
+    def s_explicit():
+        for k in case.get('explicit', []):
+            b.add_input(utxos[k])
+
+    def s_potential():
+        for k in case.get('potential', []):
+            b.potential_inputs.append(utxos[k])
+
+    def s_excluded():
+        if case.get('excluded'):
+            b.excluded_inputs = [utxos[k] for k in case['excluded']]
+
+    def s_addr():
+        for a in case.get('addr_inputs', []):
+            b.add_input_address(addr(a))
+
+    def s_outs():
+        for o in case.get('outs', []):
+            b.add_output(TransactionOutput(addr(o['a']), Value(o['c'], mk_ma(o['m']))))
+
+    def s_mint():
+        if case.get('mint') is not None:
+            b.mint = mk_ma(case['mint'])
+        if case.get('scripts'):
+            b.native_scripts = [policy_script(k) for k in case['scripts']]
+
+    def s_wdrl():
+        if case.get('wdrl') is not None:
+            w = Withdrawals()
+            for ra, amt in case['wdrl']:
+                w[bytes.fromhex(ra)] = amt
+            b.withdrawals = w
+
+    def s_certs():
+        if case.get('certs') is not None:
+            b.certificates = [mk_cert(c) for c in case['certs']]
+        b.initial_stake_pool_registration = bool(case.get('pool_initial', False))
+
+    def s_props():
+        for k, dep in enumerate(case.get('props', [])):
+            b.add_proposal(dep[0], bytes.fromhex(dep[1]), InfoAction(), anchor(dep[2]))
+
+    def s_donation():
+        if case.get('donation') is not None:
+            b.add_treasury_donation(case['donation'])
+            if case.get('treasury') is not None:
+                b.current_treasury_value = case['treasury']
+
+    def s_misc():
+        if case.get('fee_buffer') is not None:
+            b.fee_buffer = case['fee_buffer']
+        if case.get('ttl') is not None:
+            b.ttl = case['ttl']
+
+    steps = [s_explicit, s_potential, s_excluded, s_addr, s_outs, s_mint, s_wdrl, s_certs, s_props, s_donation, s_misc]
+    # history: the order of the builder calls is part of the scenario (a permutation of 0..10)
+    for k in case.get('order') or range(len(steps)):
+        steps[k]()
     return ctx, b, utxos
 
 
